@@ -72,7 +72,11 @@ NAME_POOLS = [
     # the trailing separator mistakes the sibling for a descendant
     (0.25, "prefix-siblings", [["a", "a_raw", "b"], ["a", "a.bak", "aa"], ["b", "bb", "b c"], ["a", "ab", "a_"]]),
     # unusual but legal POSIX names: backslash, space, non-ASCII, leading dot
-    (0.25, "unusual", [["a", "we\\ird", ".h"], ["s p", "\u00e9t\u00e9", "b"], ["a\\b", "a", "b"], [".a", "a", "x\\"]]),
+    (0.25, "unusual", [["a", "we\\ird", ".h"], ["s p", "\u00e9t\u00e9", "b"], ["a\\b", "a", "b"], [".a", "a", "x\\"],
+                       # Cyrillic / CJK / emoji; NFC next to NFD of the same text; a name ending in .dir; names
+                       # that differ only in case
+                       ["\u0434\u0430\u043d\u043d\u044b\u0435", "\u6570\u636e", "\U0001f4c1x"],
+                       ["caf\u00e9", "cafe\u0301", "x.dir"], ["Data", "data", "a"]]),
 ]
 
 
@@ -319,6 +323,10 @@ def _plant_once(odb, oid, data):
         impl.plant(odb.path, oid, data)
 
 
+_ROUTE_SEQ = [0]
+RELINK_ITEMS = []
+
+
 def build_target(case, root, odb):
     """returns (DataIndex, model target entries [(key, tentry-term)], trees {id: listing}, nodes)"""
     from dvc_objects.fs.local import localfs
@@ -340,27 +348,39 @@ def build_target(case, root, odb):
         new = imd5(ibuild(src, localfs))
         new.storage_map.add_cache(ObjectStorage((), odb))
         isave(new)
+        if case.get("role", "cache") != "cache":
+            getattr(new.storage_map, "add_" + case["role"])(ObjectStorage((), odb))
         for rel, v in files_of(tree).items():
             mt.append((key_of(rel), ("f", v[1], v[0])))
             contents.add(v[0])
         for d in sorted(dirs_of(tree)):
             mt.append((key_of(d), ("d", "h" + d)))
         return new, mt, trees, contents
-    new = DataIndex()
+    hname = case.get("hash_name", "md5")
+    route = case.get("route", "mem")
+    pre = ("p",) if route == "sqlite-view" else ()     # the target is big.view(("p",))
+    _ROUTE_SEQ[0] += 1
+    new = DataIndex.open(os.path.join(root, "idx%d.db" % _ROUTE_SEQ[0])) if route != "mem" else DataIndex()
+
+    def label(k):  # HashInfo.obj_name as dvc sets it (eq=False: must not matter)
+        return "/".join(k) if case.get("obj_name") else None
+
     for i, e in enumerate(case["spec"]):
         k = key_of(e["k"])
+        mk = k
+        k = pre + k
         if e["t"] == "f":
             hi = None
             if e["c"] is not None:
                 oid = impl.md5hex(e["c"].encode())
                 _plant_once(odb, oid, e["c"].encode())
-                hi = HashInfo("md5", oid)
+                hi = HashInfo(hname, oid, obj_name=label(k))
                 contents.add(e["c"])
             new[k] = DataIndexEntry(key=k, meta=Meta(isexec=e["x"]), hash_info=hi)
-            mt.append((k, ("f", e["x"], e["c"])))
+            mt.append((mk, ("f", e["x"], e["c"])))
         elif e["t"] == "d":
             new[k] = DataIndexEntry(key=k, meta=Meta(isdir=True), loaded=True)
-            mt.append((k, ("d", None)))
+            mt.append((mk, ("d", None)))
         else:
             lst = []
             for rel, c in e["tree"].items():
@@ -370,7 +390,7 @@ def build_target(case, root, odb):
                 contents.add(c)
             doid = impl.dir_oid(lst)
             _plant_once(odb, doid, impl.canon_listing(lst))
-            new[k] = DataIndexEntry(key=k, meta=Meta(isdir=True), hash_info=HashInfo("md5", doid))
+            new[k] = DataIndexEntry(key=k, meta=Meta(isdir=True), hash_info=HashInfo(hname, doid, obj_name=label(k)))
             tid = "t%d" % i
             # what the directory object REALLY lists: its stored bytes, parsed here with json (not through
             # dvc_data); the oracle's and the model's target come from this
@@ -380,8 +400,15 @@ def build_target(case, root, odb):
             listed = {ent["relpath"]: by_oid[ent["md5"]] for ent in stored}
             assert listed == dict(e["tree"]), (listed, e["tree"])
             trees[tid] = (listed, doid)
-            mt.append((k, ("lazy", tid)))
-    new.storage_map.add_cache(ObjectStorage((), odb))
+            mt.append((mk, ("lazy", tid)))
+    if pre and not any(key_of(e["k"]) == () for e in case["spec"]):
+        new[pre] = DataIndexEntry(key=pre, meta=Meta(isdir=True), loaded=True)   # the root of the view
+        mt.append(((), ("d", None)))
+    getattr(new.storage_map, "add_" + case.get("role", "cache"))(ObjectStorage((), odb))
+    if route != "mem":
+        new.commit()
+    if pre:
+        new = new.view(pre)
     return new, mt, trees, contents
 
 
@@ -396,7 +423,8 @@ def run_real(ctx, case):
 
     root = ctx.fresh("c09")
     wsdir = os.path.join(root, "ws")
-    odb = impl.make_odb(case.get("cls", "local"), os.path.join(root, "cache"), type=[case["link"]])
+    okw = {"hash_name": case["hash_name"]} if case.get("hash_name") else {}
+    odb = impl.make_odb(case.get("cls", "local"), os.path.join(root, "cache"), type=[case["link"]], **okw)
     os.makedirs(odb.path, exist_ok=True)
     new, mt, trees, contents = build_target(case, root, odb)
     # unavailable sources
@@ -419,7 +447,17 @@ def run_real(ctx, case):
                 os.unlink(p)
             # equal listings are one object: every entry naming it is unavailable
             gone_trees.update(t2 for t2 in trees if trees[t2][1] == trees[tid][1])
-    mk_ws(wsdir, case["prior"])
+    if case.get("ws_symlink"):   # the workspace is reached through a symbolic link
+        mk_ws(os.path.join(root, "ws_real"), case["prior"])
+        os.symlink(os.path.join(root, "ws_real"), wsdir)
+    else:
+        mk_ws(wsdir, case["prior"])
+    if case.get("prior_ro"):     # protected (read-only) files in the prior workspace
+        for r_, _ds, fs_ in os.walk(os.path.realpath(wsdir)):
+            for n_ in fs_:
+                p_ = os.path.join(r_, n_)
+                if not os.path.islink(p_):
+                    os.chmod(p_, os.stat(p_).st_mode & ~0o222)
     cerrs = []
     if case.get("collect_onerror"):
         new.onerror = lambda entry, exc: cerrs.append(entry.key)
@@ -431,12 +469,30 @@ def run_real(ctx, case):
             return imd5(ibuild(wsdir, localfs))
         ix = DataIndex()
         ix.storage_map.add_data(FileStorage(key=(), fs=localfs, path=wsdir))
-        for entry in build_entries(wsdir, localfs, compute_hash=True):
+        for entry in build_entries(wsdir, localfs, compute_hash=True, hash_name=case.get("hash_name", "md5")):
             ix.add(entry)
         return ix
 
-    old = ws_index()
-    d1 = compare(old, new, delete=case["delete"])
+    akw = {}       # the flags of apply under audit
+    if case.get("links"):
+        akw["links"] = list(case["links"])
+    if case.get("jobs"):
+        akw["jobs"] = case["jobs"]
+    if case.get("role", "cache") != "cache":
+        akw["storage"] = case["role"]
+    if case.get("callback"):
+        from fsspec.callbacks import Callback
+
+        akw["callback"] = Callback()
+    state = None
+    if case.get("state"):
+        from dvc_data.hashfile.state import State
+
+        state = State(root_dir=os.path.realpath(wsdir), tmp_dir=os.path.join(root, "state"))
+        akw["state"] = state
+    ckw = {"relink": True} if case.get("relink") else {}
+    old = None if case.get("old") == "none" else ws_index()
+    d1 = compare(old, new, delete=case["delete"], **ckw)
     res["plan1"] = plan_keys(d1)
     res["order"] = [e.key for e in d1.files_chmod]
     res["order_dc"] = [e.key for e in d1.dirs_create]
@@ -449,10 +505,42 @@ def run_real(ctx, case):
         errs.append((code, k, type(exc).__name__))
 
     res["raised"] = None
+    undo = []
+    if case.get("fault"):
+        # one failing copy / link at a chosen position of the batch (first, middle, last)
+        import errno as _errno
+
+        from dvc_objects.fs.local import FsspecLocalFileSystem as _F
+
+        fc_keys = sorted(e.key for e in d1.files_create if e.hash_info)
+        if fc_keys:
+            pos = {"first": 0, "last": len(fc_keys) - 1}.get(case["fault"]["pos"], len(fc_keys) // 2)
+            victim = fc_keys[pos]
+            vpath = os.path.join(wsdir, *victim)
+            exc_ = {"EIO": OSError(_errno.EIO, "injected"), "EPERM": PermissionError(_errno.EPERM, "injected"),
+                    "ENOENT": FileNotFoundError(_errno.ENOENT, "injected")}[case["fault"]["kind"]]
+            res["fault_key"] = victim
+            for meth in ("put_file", "link", "symlink"):
+                orig = getattr(_F, meth)
+
+                def wrapped(self, a, b, *args, _orig=orig, **kw):
+                    if os.path.abspath(b) == os.path.abspath(vpath):
+                        raise exc_
+                    return _orig(self, a, b, *args, **kw)
+
+                setattr(_F, meth, wrapped)
+                undo.append((meth, orig))
     try:
-        apply(d1, wsdir, localfs, onerror=onerror, update_meta=False)
+        apply(d1, wsdir, localfs, onerror=onerror, update_meta=bool(case.get("update_meta")), **akw)
     except Exception as exc:  # noqa: BLE001
         res["raised"] = type(exc).__name__
+    finally:
+        for meth, orig in undo:
+            from dvc_objects.fs.local import FsspecLocalFileSystem as _F
+
+            setattr(_F, meth, orig)
+    if state is not None:
+        state.close()
     res["errs"] = sorted(errs)
     res["walk"], res["litter"] = walk_ws(wsdir)
     try:
@@ -548,6 +636,14 @@ def ckey(k):
     return clist([cbytes(s) for s in k])
 
 
+def eff_link(case):
+    """the link type transfer ends up using: the first of the list this file system supports (no reflink here)"""
+    for lt in case.get("links") or [case["link"]]:
+        if lt != "reflink":
+            return lt
+    return "copy"
+
+
 def case_term(case, res):
     ws_items = []
     for rel, v in case["prior"].items():
@@ -569,7 +665,7 @@ def case_term(case, res):
     trees = [cpair(cbytes(tid), clist([cpair(ckey(key_of(rel)), cbytes(c)) for rel, c in t.items()]))
              for tid, t in res["trees"].items()]
     return ("{| c_link := %s; c_delete := %s; c_avail := %s; c_trees := %s; c_order := %s; c_order_dc := %s; c_ws := %s; "
-            "c_target := %s |}" % (LINKS[case["link"]], cbool(case["delete"]),
+            "c_target := %s |}" % (LINKS[eff_link(case)], cbool(case["delete"]),
                                    clist([cbytes(c) for c in res["avail"]]), clist(trees),
                                    clist([ckey(k) for k in res["order"]]), clist([ckey(k) for k in res["order_dc"]]),
                                    clist(ws_items), clist(tg)))
@@ -642,6 +738,9 @@ def oracle(case, res):
     problems = []
     files, dirs, failed, implicit = expanded_target(case, res)
     walk = {key_of(rel): v for rel, v in res["walk"].items()}
+    if res.get("fault_key") is not None and res["fault_key"] in files:
+        c_, x_, _a = files[res["fault_key"]]
+        files[res["fault_key"]] = (c_, x_, False)     # its transfer was made to fail: must be reported, not skipped
     all_avail = not failed and all(a for _, _, a in files.values())
     reported = {k for _, k, _ in res["errs"]}
     if res["exc"]:
@@ -878,6 +977,349 @@ def gen_retry_case(ctx):
     return case
 
 
+LINK_LISTS = [["reflink", "copy"], ["hardlink", "copy"], ["symlink", "copy"], ["reflink", "hardlink", "copy"],
+              ["reflink", "symlink"], ["copy"], ["hardlink"], ["symlink"]]
+
+
+def audit_knobs(ctx, case):
+    """sample the flags / routes / pre-existing states of the coverage audit on top of a generated case"""
+    rng = ctx.rng
+    if rng.random() < 0.5:
+        case["links"] = rng.choice(LINK_LISTS)
+    if rng.random() < 0.4:
+        case["jobs"] = rng.choice([1, 2, 7])
+    if rng.random() < 0.4:
+        case["role"] = rng.choice(["remote", "data", "cache"])
+    if rng.random() < 0.3:
+        case["state"] = True
+    if rng.random() < 0.3:
+        case["callback"] = True
+    if case["form"] != "build" and rng.random() < 0.3:     # (build+md5+save names its hashes md5)
+        case["hash_name"] = "md5-dos2unix"
+        case["old_index"] = "entries"
+    if rng.random() < 0.4:
+        case["obj_name"] = True
+    if case["form"] != "build" and rng.random() < 0.5:
+        case["route"] = rng.choice(["sqlite", "sqlite-view"])
+    if rng.random() < 0.25:
+        case["ws_symlink"] = True
+    if rng.random() < 0.3:
+        case["prior_ro"] = True
+    if case["form"] == "mixed" and rng.random() < 0.4 and not any(e["k"] == "" for e in case["spec"]):
+        case["spec"].append({"k": "", "t": "d"})           # an explicit directory entry at the root key ()
+    if case["form"] != "build":
+        rng.shuffle(case["spec"])                           # child-then-parent registration orders
+        case["rm_trees"] = []                               # tids are positional: keep it simple here
+    if not case["prior"] and rng.random() < 0.7:
+        case["old"] = "none"                                # old=None onto an empty workspace
+    r = rng.random()
+    if r < 0.15:
+        case["update_meta"] = True                          # (mutates the target index: oracle only)
+        case["no_model"] = True
+    elif r < 0.3:
+        case["relink"] = True
+    elif r < 0.45 and not case.get("rm_contents"):
+        case["fault"] = {"pos": rng.choice(["first", "mid", "last"]), "kind": rng.choice(["EIO", "EPERM", "ENOENT"])}
+        case["no_model"] = True
+    return case
+
+
+def scripted_audit():
+    """every audited dimension once per run, on one fixed (prior, target) pair"""
+    A, B = ("A", False), ("B", True)
+    prior = {"a": ("old", False), "z/y": A, "d/b": A}
+    target = {"a": ("A", True), "d/b": B, "d/s/c": A, "e": None}
+    spec = [{"k": "d", "t": "lazy", "tree": {"b": "B", "s/c": "A"}}, {"k": "a", "t": "f", "x": True, "c": "A"},
+            {"k": "e", "t": "d"}]
+    long_name = "n" * 200
+    out = []
+
+    def base(**kw):
+        c = {"prior": dict(prior), "target_tree": dict(target), "form": "mixed", "spec": [dict(e) for e in spec],
+             "delete": True, "link": "copy", "cls": "local"}
+        c.update(kw)
+        return c
+
+    for ll in LINK_LISTS:
+        out.append(base(links=ll))
+    for role in ("remote", "data"):
+        for link in ("copy", "hardlink", "symlink"):
+            out.append(base(role=role, link=link))
+    out += [base(jobs=1), base(jobs=2, link="hardlink"), base(state=True, link="symlink"), base(callback=True),
+            base(hash_name="md5-dos2unix", obj_name=True), base(obj_name=True, link="hardlink"),
+            base(route="sqlite"), base(route="sqlite-view"), base(route="sqlite-view", link="symlink"),
+            base(ws_symlink=True), base(ws_symlink=True, link="hardlink"), base(prior_ro=True),
+            base(prior_ro=True, link="symlink"), base(relink=True), base(relink=True, link="hardlink"),
+            base(relink=True, link="symlink", delete=False),
+            base(update_meta=True, no_model=True), base(update_meta=True, no_model=True, link="hardlink", state=True)]
+    # directory entry at the root key: explicit, lazily loaded (plain / sqlite / view of an sqlite index)
+    out.append(base(spec=[dict(e) for e in spec] + [{"k": "", "t": "d"}]))
+    for route in ("mem", "sqlite", "sqlite-view"):
+        out.append({"prior": dict(prior), "target_tree": files_of(target), "form": "lazy-root", "delete": True,
+                    "link": "copy", "cls": "local", "route": route,
+                    "spec": [{"k": "", "t": "lazy", "tree": {k: c for k, (c, _) in files_of(target).items()}}]})
+    # old=None onto an empty workspace (what the repository's own tests do)
+    for link in ("copy", "hardlink", "symlink"):
+        out.append(base(prior={}, old="none", link=link))
+    # one failing transfer at the first / a middle / the last position of the batch, and on the directory object
+    for pos in ("first", "mid", "last"):
+        for link, kind in (("copy", "EIO"), ("hardlink", "EPERM"), ("symlink", "ENOENT")):
+            out.append(base(prior={}, fault={"pos": pos, "kind": kind}, link=link, no_model=True))
+    out.append(base(rm_trees=["t0"], collect_onerror=True))
+    # names: 200 characters; 1 character; NFC/NFD twins; case twins; a .dir suffix - in every target form
+    odd = {long_name + "/" + long_name: A, "x.dir/f": B, "caf\u00e9": A, "cafe\u0301": B, "Data/f": A, "data": B,
+           "\U0001f4c1/\u6570\u636e": A}
+    for form in ("build", "lazy-root", "mixed"):
+        out.append({"prior": {"data/f": A, "Data": B, "x.dir": A}, "target_tree": dict(odd), "form": form,
+                    "delete": True, "link": "hardlink", "cls": "local"})
+    return out
+
+
+def dimensions_of(case, res, files, dirs, implicit):
+    """the audited input dimensions this case exercises"""
+    d = []
+    for k in ("links", "jobs", "state", "callback", "obj_name", "ws_symlink", "prior_ro", "relink", "update_meta",
+              "fault", "retry", "fresh_index", "collect_onerror"):
+        if case.get(k):
+            d.append("flag:" + k + ("=" + "+".join(case[k]) if k == "links" else ""))
+    d.append("link:" + eff_link(case))
+    d.append("delete:" + ("on" if case["delete"] else "off"))
+    d.append("role:" + case.get("role", "cache"))
+    d.append("route:" + (case.get("route", "mem") if case["form"] != "build" else "build+md5+save"))
+    d.append("hash-name:" + case.get("hash_name", "md5"))
+    d.append("old:" + ("None" if case.get("old") == "none" else case.get("old_index", "entries")))
+    d.append("store:" + case.get("cls", "local"))
+    if case.get("fault"):
+        d.append("fault:" + case["fault"]["pos"] + ":" + case["fault"]["kind"])
+    for k, te in res["model_target"]:
+        if k == ():
+            d.append("root-key:" + {"d": "explicit-directory", "lazy": "lazy-directory", "f": "file"}[te[0]])
+        if te[0] == "lazy" and not res["all_trees"][te[1]]:
+            d.append("shape:empty-listing")
+    nodes = set(files) | dirs | implicit
+    names = {n for k in nodes for n in k}
+    if any("\\" in n for n in names):
+        d.append("name:backslash")
+    if any(" " in n for n in names):
+        d.append("name:space")
+    if any(n.startswith(".") for n in names):
+        d.append("name:leading-dot")
+    if any(ord(ch) > 127 for n in names for ch in n):
+        d.append("name:non-ascii")
+    if any(n.endswith(".dir") for n in names):
+        d.append("name:dir-suffix")
+    if any(len(n) >= 200 for n in names):
+        d.append("name:200-chars")
+    import unicodedata
+
+    if any(unicodedata.normalize("NFC", n) != n for n in names):
+        d.append("name:not-NFC")
+    if len({n.lower() for n in names}) < len(names):
+        d.append("name:case-twins")
+    paths = {"/".join(k) for k in nodes}
+    if any(a != b and b.startswith(a) and not b.startswith(a + "/") for a in paths for b in paths):
+        d.append("name:sibling-string-prefix")
+    if implicit:
+        d.append("shape:implicit-directories")
+    if any(k and not any(n != k and n[:len(k)] == k for n in nodes) for k in dirs):
+        d.append("shape:empty-directory")
+    if any(len(k) >= 3 for k in files):
+        d.append("shape:depth>=3")
+    cs = [c for c, _, _ in files.values()]
+    if len(cs) != len(set(cs)):
+        d.append("shape:identical-contents")
+    if "" in cs:
+        d.append("shape:zero-length-file")
+    if any(x for _, x, _ in files.values()):
+        d.append("shape:exec-entry")
+    pv = case["prior"]
+    if any(v == "X" for v in pv.values()):
+        d.append("prior:dangling-symlink")
+    tf = {"/".join(k): v for k, v in files.items()}
+    for rel, v in pv.items():
+        if isinstance(v, (tuple, list)) and rel in tf:
+            d.append("prior:right-bytes-at-target-path" if v[0] == tf[rel][0] else "prior:other-bytes-at-target-path")
+            if v[0] == "" and tf[rel][0] != "":
+                d.append("prior:empty-leftover")
+        if isinstance(v, (tuple, list)) and tuple(rel.split("/")) in (dirs | implicit):
+            d.append("prior:file-where-directory-wanted")
+    if dirs_of(pv) & set(tf):
+        d.append("prior:directory-where-file-wanted")
+    if not pv:
+        d.append("prior:empty-workspace")
+    if res["gone"]:
+        d.append("unavailable:file-object")
+    if res["gone_trees"]:
+        d.append("unavailable:directory-object")
+    if any(c is None for c, _, _ in files.values()):
+        d.append("unavailable:hash-less-entry")
+    return sorted(set(d))
+
+
+# Candidate findings of the coverage audit (reported to the lead with their concrete inputs).  A signature listed in
+# JUDGED is oracle-failed when it reproduces; the others are recorded in the evidence (audit_observations) only,
+# because it is the lead's call whether the dimension is inside the property's quantifier.
+JUDGED: set = set()
+
+
+def audit_observations(ctx):  # noqa: C901, PLR0915
+    """fixed scenarios on dimensions outside the model's domain: single-file target at the root key, old=None over
+    existing content, a stale old index, a directory symlink inside the workspace, update_meta=True"""
+    from dvc_objects.fs.local import localfs
+
+    from dvc_data.hashfile.hash_info import HashInfo
+    from dvc_data.hashfile.meta import Meta
+    from dvc_data.index import DataIndex, DataIndexEntry, FileStorage, ObjectStorage
+    from dvc_data.index.build import build_entries
+    from dvc_data.index.checkout import apply, compare
+
+    obs = ctx.extra.setdefault("audit_observations", {})
+    dims = ctx.extra.setdefault("input_dimensions", {})
+
+    def note(sig, holds, what, case):
+        obs[sig] = obs.get(sig, []) + [{"property_holds": holds, "what": what, "input": case}]
+        if not holds and sig in JUDGED:
+            ctx.oracle_fail(sig, what, case)
+
+    def setup(link):
+        root = ctx.fresh("c09obs")
+        odb = impl.make_odb("local", os.path.join(root, "cache"), type=[link])
+        os.makedirs(odb.path, exist_ok=True)
+        return root, odb, os.path.join(root, "ws")
+
+    def fe(odb, k, c, x=False):
+        oid = impl.md5hex(c.encode())
+        _plant_once(odb, oid, c.encode())
+        return DataIndexEntry(key=k, meta=Meta(isexec=x), hash_info=HashInfo("md5", oid))
+
+    def wsidx(ws):
+        ix = DataIndex()
+        ix.storage_map.add_data(FileStorage(key=(), fs=localfs, path=ws))
+        for e in build_entries(ws, localfs, compute_hash=True):
+            ix.add(e)
+        return ix
+
+    def go(old, new, ws, **kw):
+        errs, raised = [], None
+        try:
+            apply(compare(old, new, delete=True), ws, localfs, onerror=lambda *a: errs.append(type(a[2]).__name__), **kw)
+        except Exception as exc:  # noqa: BLE001
+            raised = type(exc).__name__
+        return errs, raised
+
+    def read(p):
+        try:
+            with open(p, "rb") as f:
+                return f.read().decode()
+        except OSError as exc:
+            return "<" + type(exc).__name__ + ">"
+
+    for link in ("copy", "hardlink", "symlink"):
+        # D: a single FILE entry at the root key (): the workspace path is the file
+        for prior in ("absent", "directory", "file-other-bytes"):
+            root, odb, ws = setup(link)
+            new = DataIndex()
+            new[()] = fe(odb, (), "A", True)
+            new.storage_map.add_cache(ObjectStorage((), odb))
+            if prior == "directory":
+                os.makedirs(os.path.join(ws, "d"))
+                with open(os.path.join(ws, "d", "f"), "w") as f:
+                    f.write("x")
+            elif prior == "file-other-bytes":
+                with open(ws, "w") as f:
+                    f.write("old")
+            errs, raised = go(wsidx(ws) if prior == "directory" else None, new, ws, update_meta=False)
+            ok = os.path.isfile(ws) and read(ws) == "A" and not errs and not raised
+            dims["root-key:file/prior-" + prior] = dims.get("root-key:file/prior-" + prior, 0) + 1
+            note("C09:not-converged:root-file", ok,
+                 f"single file entry at (), workspace path {prior}: now {'file ' + repr(read(ws)) if os.path.isfile(ws) else 'directory' if os.path.isdir(ws) else 'absent'}, "
+                 f"onerror {errs}, raised {raised}", {"target": {"()": "A exec"}, "prior": prior, "link": link, "delete": True})
+            impl.rm_rf(root)
+        # E: old=None over existing content (an untracked file at a target path, a file outside the target)
+        root, odb, ws = setup(link)
+        new = DataIndex()
+        new[("a",)] = fe(odb, ("a",), "A")
+        new[("d", "b")] = fe(odb, ("d", "b"), "B")
+        new.storage_map.add_cache(ObjectStorage((), odb))
+        mk_ws(ws, {"a": ("untracked", False), "other": ("x", False)})
+        errs, raised = go(None, new, ws, update_meta=False)
+        dims["old:None-over-existing-content"] = dims.get("old:None-over-existing-content", 0) + 1
+        note("C09:old-none:untracked-file-kept", read(os.path.join(ws, "a")) == "A" and not os.path.exists(os.path.join(ws, "other")),
+             f"old=None, untracked a='untracked', other='x': a is now {read(os.path.join(ws, 'a'))!r}, other "
+             f"{'kept' if os.path.exists(os.path.join(ws, 'other')) else 'deleted'}, onerror {errs}, raised {raised}",
+             {"prior": {"a": "untracked", "other": "x"}, "target": {"a": "A", "d/b": "B"}, "old": None, "link": link, "delete": True})
+        impl.rm_rf(root)
+        # C: a live directory symlink inside the workspace that the target does not have
+        root, odb, ws = setup(link)
+        new = DataIndex()
+        new[("a",)] = fe(odb, ("a",), "A")
+        new.storage_map.add_cache(ObjectStorage((), odb))
+        mk_ws(ws, {"a": ("A", False)})
+        os.makedirs(os.path.join(root, "elsewhere"))
+        with open(os.path.join(root, "elsewhere", "f"), "w") as f:
+            f.write("precious")
+        os.symlink(os.path.join(root, "elsewhere"), os.path.join(ws, "lnk"))
+        errs, raised = go(wsidx(ws), new, ws, update_meta=False)
+        d2 = compare(wsidx(ws), new, delete=True)
+        dims["prior:directory-symlink-in-workspace"] = dims.get("prior:directory-symlink-in-workspace", 0) + 1
+        note("C09:not-converged:dir-symlink-in-workspace",
+             not os.path.lexists(os.path.join(ws, "lnk")) and not d2.dirs_delete,
+             f"lnk -> directory elsewhere, not in the target: lnk {'still there' if os.path.lexists(os.path.join(ws, 'lnk')) else 'removed'}, "
+             f"second compare dirs_delete={[e.key for e in d2.dirs_delete]}, the directory it points to holds "
+             f"{sorted(os.listdir(os.path.join(root, 'elsewhere')))}", {"prior": {"a": "A", "lnk": "-> dir"}, "target": {"a": "A"}, "link": link})
+        impl.rm_rf(root)
+        # A: update_meta=True (apply's default) with an unavailable NON-executable source
+        root, odb, ws = setup(link)
+        new = DataIndex()
+        new[("a",)] = fe(odb, ("a",), "A")
+        new[("b",)] = fe(odb, ("b",), "B")
+        new.storage_map.add_cache(ObjectStorage((), odb))
+        p = odb.oid_to_path(impl.md5hex(b"A"))
+        os.chmod(p, 0o644)
+        os.unlink(p)
+        os.makedirs(ws)
+        errs, raised = go(wsidx(ws), new, ws)
+        dims["flag:update_meta/unavailable-source"] = dims.get("flag:update_meta/unavailable-source", 0) + 1
+        note("C09:apply-raised:update-meta-after-failed-create", errs == ["FileNotFoundError"] and raised is None,
+             f"update_meta=True, object of a missing: onerror {errs}, then apply raised {raised}",
+             {"target": {"a": "A (object missing)", "b": "B"}, "prior": {}, "link": link, "update_meta": True})
+        impl.rm_rf(root)
+        # B: update_meta=True loses the exec bit from the target index; the same index onto a wiped workspace
+        root, odb, ws = setup(link)
+        new = DataIndex()
+        new[("a",)] = fe(odb, ("a",), "A", True)
+        new.storage_map.add_cache(ObjectStorage((), odb))
+        os.makedirs(ws)
+        go(wsidx(ws), new, ws)
+        x1 = bool(os.stat(os.path.join(ws, "a")).st_mode & stat.S_IXUSR)
+        impl.rm_rf(ws)
+        os.makedirs(ws)
+        p = odb.oid_to_path(impl.md5hex(b"A"))
+        os.chmod(p, 0o444)   # (a link type that shares the inode left the object executable: reset it)
+        go(wsidx(ws), new, ws)
+        x2 = os.path.exists(os.path.join(ws, "a")) and bool(os.stat(os.path.join(ws, "a")).st_mode & stat.S_IXUSR)
+        dims["flag:update_meta/two-rounds-same-index"] = dims.get("flag:update_meta/two-rounds-same-index", 0) + 1
+        note("C09:history:exec-bit-lost-from-index", x1 and x2,
+             f"executable entry a, apply(update_meta=True): executable {x1}; workspace wiped, same index object applied "
+             f"again: executable {x2}; the entry's meta.isexec is now {new[('a',)].meta.isexec}",
+             {"target": {"a": "A exec"}, "history": ["apply(update_meta=True)", "wipe workspace", "compare+apply again"], "link": link})
+        impl.rm_rf(root)
+    # a stale old index: built, then the user edits a file the target keeps
+    root, odb, ws = setup("copy")
+    new = DataIndex()
+    new[("a",)] = fe(odb, ("a",), "A")
+    new.storage_map.add_cache(ObjectStorage((), odb))
+    mk_ws(ws, {"a": ("A", False)})
+    old = wsidx(ws)
+    with open(os.path.join(ws, "a"), "w") as f:
+        f.write("edited")
+    go(old, new, ws, update_meta=False)
+    dims["old:stale"] = dims.get("old:stale", 0) + 1
+    note("C09:old-stale:edit-kept", read(os.path.join(ws, "a")) == "A", f"old built before the user edited a: a is now {read(os.path.join(ws, 'a'))!r}",
+         {"prior": {"a": "A then edited"}, "target": {"a": "A"}, "old": "stale"})
+    impl.rm_rf(root)
+
+
 def judge(ctx, case, items, stream, retry_items=None):
     res = run_real(ctx, case)
     p1 = res["plan1"]
@@ -924,10 +1366,13 @@ def judge(ctx, case, items, stream, retry_items=None):
             where = ("at-target-file" if k in files else "at-target-dir" if k in dirs | implicit else
                      "below-target-file" if any(k[:i] in files for i in range(1, len(k))) else "outside-target")
             ctx.count("prior-dangling:" + where)
+    dims = ctx.extra.setdefault("input_dimensions", {})
+    for dname in dimensions_of(case, res, files, dirs, implicit):
+        dims[dname] = dims.get(dname, 0) + 1
     for sig, what in oracle(case, res):
         ctx.oracle_fail(sig, what, case)
-    if res["plan2"] is not None:
-        items.append((case, case_term(case, res), expected_val(res)))
+    if res["plan2"] is not None and not case.get("no_model"):
+        (RELINK_ITEMS if case.get("relink") else items).append((case, case_term(case, res), expected_val(res)))
     if "r2" in res:
         ctx.count("retry:" + ("fresh-index" if case.get("fresh_index") else "same-index")
                   + (":swallowing-onerror" if case.get("collect_onerror") else ":raising-onerror"))
@@ -1005,7 +1450,7 @@ def run(ctx):
     corpus = scripted()
     for c in corpus:
         judge(ctx, finish_case(ctx, c), items, "corpus")
-    n_main = ctx.n(150, 2600)
+    n_main = ctx.n(120, 2600)
     for _ in range(n_main):
         judge(ctx, gen_case(ctx), items, "main")
     n_impl = ctx.n(25, 300)
@@ -1020,12 +1465,20 @@ def run(ctx):
     n_retry = ctx.n(24, 400)
     for _ in range(n_retry):
         judge(ctx, gen_retry_case(ctx), items, "retry", retry_items)
+    del RELINK_ITEMS[:]
+    for c in scripted_audit():
+        judge(ctx, finish_case(ctx, c), items, "audit-corpus")
+    n_audit = ctx.n(24, 500)
+    for _ in range(n_audit):
+        judge(ctx, audit_knobs(ctx, gen_case(ctx)), items, "audit")
+    audit_observations(ctx)
     ctx.obligation("oracle:checkout", not any(v.kind == "oracle" for v in ctx.violations),
                    f"{len(items)} compare+apply+compare runs judged: walk equals target, second compare empty, "
                    "nothing outside the target removed without delete, unavailable sources reported")
     ctx.correspond("checkout", IMPORTS, "case", "run_case", items, shard=120)
     ctx.correspond("retry", IMPORTS, "case * trees * list key * list key",
                    "fun i => match i with (c, tr2, o2, odc2) => run_retry c tr2 o2 odc2 end", retry_items, shard=120)
+    ctx.correspond("relink", IMPORTS, "case", "run_case_relink", list(RELINK_ITEMS), shard=120)
     b = branch_items(ctx)
     ctx.correspond("branch", IMPORTS, "bool * bool * N * option ientry * option ientry * bool",
                    "fun i => match i with (r, d, t, o, n, h) => enc_branch r d t o n h end", b, shard=300)
